@@ -7,7 +7,7 @@
    Field abstract (field_theory); `small x` is fabs(x) < zero_tol with small 0 = true; states: 1 = Selected. *)
 From Coq Require Import QArith Qcanon Qcabs Field.
 From Raptor Require Import Base.Sums Sparse.Defs Amg.Strength Amg.StrengthProofs Amg.StrengthInst Amg.Interp
-     Amg.InterpProofs Amg.InterpInst Extract.Inst Extract.Inst_interp.
+     Amg.InterpProofs Amg.InterpInst Amg.Truncate Amg.TruncateProofs Extract.Inst Extract.Inst_interp.
 Local Open Scope nat_scope.
 
 Section C12.
@@ -252,6 +252,28 @@ Proof.
     rewrite E in Hq. simpl in Hq. destruct Hq as [<-|[<-|[]]]; [vm_compute; reflexivity|simpl in Hq0; discriminate].
 Qed.
 
+(* truncation of the weights (filter_interp, distributed extended interpolation with a threshold): every truncated row
+   keeps only columns of the untruncated row, a row whose weights all pass the threshold is unchanged, and whenever the row
+   is rescaled its row sum is exactly the row sum of the untruncated row - so truncation preserves "constants are
+   reproduced" (in the branch without rescaling the row is the kept part as it is) *)
+Theorem C12_truncation (F : Type) (zero one : F) (add mul sub : F -> F -> F) (opp : F -> F) (div : F -> F -> F)
+        (inv : F -> F) (Fth : field_theory zero one add mul sub opp div inv (@eq F))
+        (absf : F -> F) (ltb : F -> F -> bool) (big : F -> bool) (big_zero : big zero = false)
+        (thr : F) (r : list (nat * F)) :
+  let tr := filter_row zero add mul sub div absf ltb big thr r in
+  let rs := sumf F zero add (map snd r) in
+  let ks := sumf F zero add (map snd (kept_of zero mul absf ltb thr r)) in
+  (forall c w, In (c, w) tr -> exists w0, In (c, w0) r) /\
+  (big ks = true -> big (sub rs ks) = true -> sumf F zero add (map snd tr) = rs) /\
+  (big ks && big (sub rs ks) = false -> tr = kept_of zero mul absf ltb thr r) /\
+  ((forall p, In p r -> ltb (absf (snd p)) (mul (row_max zero absf ltb r) thr) = false) -> tr = r).
+Proof.
+  intros tr rs ks. split; [intros c w; apply filter_row_support|].
+  split; [apply (filter_row_sum F zero one add mul sub opp div inv Fth absf ltb big big_zero)|].
+  split; [apply filter_row_unscaled|].
+  apply (filter_row_all_kept F zero one add mul sub opp div inv Fth absf ltb big big_zero).
+Qed.
+
 Print Assumptions C12_coarse_numbering.
 Print Assumptions C12_injection.
 Print Assumptions C12_support.
@@ -262,3 +284,4 @@ Print Assumptions C12_par_direct_eq_seq.
 Print Assumptions C12_checker_sound.
 Print Assumptions C12_direct_finite.
 Print Assumptions C12_instance_Qc.
+Print Assumptions C12_truncation.
